@@ -213,6 +213,8 @@ Defects == {
   Df("alt_hdr_host",       "hdr",  "proof",     "proof"),
   Df("alt_hdr_sha",        "hdr",  "proof",     "proof"),
   Df("alt_hdr_amz",        "hdr",  "proof",     "proof"),
+  \* a second line of a signed header added after signing (the signature covers one value)
+  Df("dup_hdr_amz",        "hdr",  "proof",     "proof"),
   Df("alt_query",          "hdr",  "proof",     "proof"),
   Df("alt_payload",        "hdr",  "proof",     "proof"),
   Df("date_past",          "hdr",  "date",      "early"),
